@@ -79,6 +79,7 @@ type WorkerOut struct {
 	Errors       []string         `json:"errors,omitempty"`
 	SeedsFirst   uint64           `json:"seed_first"`
 	SeedsLast    uint64           `json:"seed_last"`
+	Sets         map[string][]string `json:"sets,omitempty"`
 }
 
 // nontrivialProbes: a run counts as non-trivial for a property if it reached
@@ -97,6 +98,7 @@ var nontrivialProbes = map[string][]string{
 	"C11": {"shutdown_", "persist_liveness_checked"},
 	"C12": {"retention_removed_jobs", "purge_undefined_pipeline"},
 	"C13": {"read_lock_holder_ran_inside_another"},
+	"C14": {"http_"},
 	"C15": {"schedulable_probe", "http_list"},
 	"C16": {"reload_while_queued", "reload_while_running"},
 }
@@ -206,6 +208,7 @@ func workerSearch(t *testing.T, job *WorkerJob) {
 	out := &WorkerOut{Faults: map[string]int{}, Probes: map[string]int{}, OtherProps: map[string]int{}, Inconclusive: map[string]int{}}
 	hashes := map[string]bool{}
 	abstract := map[string]bool{}
+	sets := map[string]map[string]bool{}
 	deadline := t0.Add(time.Duration(job.DeadlineS * float64(time.Second)))
 	seenRule := map[string]bool{}
 	maxViol := job.MaxViol
@@ -279,6 +282,14 @@ func workerSearch(t *testing.T, job *WorkerJob) {
 		for a := range res.Stats.AbstractSeen {
 			abstract[a] = true
 		}
+		for name, set := range res.Stats.Sets {
+			if sets[name] == nil {
+				sets[name] = map[string]bool{}
+			}
+			for it := range set {
+				sets[name][it] = true
+			}
+		}
 		if nontrivial(job.Property, &res.Stats) {
 			hashes[res.Hash] = true
 			if len(out.Samples) < 2 {
@@ -328,6 +339,10 @@ func workerSearch(t *testing.T, job *WorkerJob) {
 		}
 	}
 	out.Hashes, out.Abstract = keys(hashes), keys(abstract)
+	out.Sets = map[string][]string{}
+	for name, set := range sets {
+		out.Sets[name] = keys(set)
+	}
 	out.WallS = time.Since(t0).Seconds()
 	b, _ := json.Marshal(out)
 	if job.Out != "" {
